@@ -81,6 +81,9 @@ FORMS = {
                     expr='inner(u, v) * dx + 0.5 * u[0] * v[1] * dx + 0.5 * u[1] * v[0] * dx', bfuns=[('u', 2), ('v', 2)]),
     'c-2x1':   dict(dims=(2,), comps=(2, 1), sym=False, kind='str', expr='c * f * inner(u, grad(v)) * dx',
                     bfuns=[('u', 2), ('v', 1)], updatable=['f'], params=True),
+    # an updatable field used at two derivative orders (value and gradient): update() must refresh both
+    'c-fgrad': dict(dims=(2,), comps=(0, 0), sym=False, kind='str', expr='c * (f * u * v + inner(grad(f), grad(v)) * u) * dx',
+                    bfuns=None, updatable=['f'], params=True, explicit=True, spline_field=True),
     'c-1x2':   dict(dims=(2,), comps=(1, 2), sym=False, kind='str', expr='inner(grad(u), v) * dx + u * v[1] * dx',
                     bfuns=[('u', 1), ('v', 2)]),
 }
@@ -91,7 +94,9 @@ def forms_for(prob, tier, only=None):
     for name, F in FORMS.items():
         if only is not None and name not in only:
             continue
-        if F['kind'] != 'class' and tier != 'thorough':
+        if F['kind'] != 'class' and tier != 'thorough' and not (only is not None and F.get('explicit')):
+            continue
+        if F.get('explicit') and only is None:
             continue
         if prob['d'] in F['dims'] and (prob['nc0'], prob['nc1']) == F['comps']:
             out.append(name)
@@ -109,11 +114,22 @@ class Problem:
         self.nc0, self.nc1 = prob['nc0'], prob['nc1']
         self.args = {'geo': self.geo}
         if self.F.get('params'):
-            self.args.update(f=field_f(self.d, 0), c=PARAM_C[0])
+            self.args.update(f=self.field(0), c=PARAM_C[0])
         if self.F['kind'] == 'class':
             self.cls = getattr(assemblers, self.F['cls'] % self.d)
         self.ident = 'form=%s d=%d comps=%dx%d' % (form, self.d, self.nc0, self.nc1)
         self.key = (form, tuple(prob['codes']), self.nc0, self.nc1)
+
+    def field(self, v):
+        """input field number v: a physical function, or (forms that differentiate it) a spline function on the space"""
+        if not self.F.get('spline_field'):
+            return field_f(self.d, v)
+        from pyiga import bspline
+        a, b = [(1.0, 0.5), (-0.75, 2.0), (0.25, -1.5)][v]
+        N = tuple(kv.numdofs for kv in self.kvs)
+        I = np.indices(N)
+        C = a + b * np.sin(1.0 + sum((k + 1) * I[k] for k in range(len(N))))
+        return bspline.BSplineFunc(self.kvs, C)
 
     def make(self, **override):
         """a fresh assembler object through the public API"""
@@ -416,7 +432,7 @@ def check_updates(P, hists):
 
     def fresh_op(fv, cv):
         if (fv, cv) not in fresh:
-            W = assemble.Assembler(P.F['expr'], P.kvs, geo=P.geo, f=field_f(P.d, fv), c=PARAM_C[cv],
+            W = assemble.Assembler(P.F['expr'], P.kvs, geo=P.geo, f=P.field(fv), c=PARAM_C[cv],
                                    bfuns=P.F['bfuns'], updatable=['f'])
             fresh[(fv, cv)] = W.assemble().toarray()
         return fresh[(fv, cv)]
@@ -425,16 +441,16 @@ def check_updates(P, hists):
         ops = [(h['op'], h['v']) for h in hist]
         det = {'form': P.form, 'ops': ops}
         try:
-            W = assemble.Assembler(P.F['expr'], P.kvs, geo=P.geo, f=field_f(P.d, 0), c=PARAM_C[0],
+            W = assemble.Assembler(P.F['expr'], P.kvs, geo=P.geo, f=P.field(0), c=PARAM_C[0],
                                    bfuns=P.F['bfuns'], updatable=['f'])
             pending = {}
             for step, h in enumerate(hist):
                 if h['op'] == 'f':
                     if (n + step) % 2 == 0:
                         pending = {}                             # superseded before it was ever passed on
-                        W.update(f=field_f(P.d, h['v']))
+                        W.update(f=P.field(h['v']))
                     else:
-                        pending['f'] = field_f(P.d, h['v'])      # passed to the next assemble(**upd_fields)
+                        pending['f'] = P.field(h['v'])      # passed to the next assemble(**upd_fields)
                 elif h['op'] == 'c':
                     W.asm.update_params(c=PARAM_C[h['v']])
                 else:
@@ -512,6 +528,9 @@ def main():
                 OUT.exception(ex, 'setup', {'form': form, 'codes': prob['codes']})
                 continue
             try:
+                if job.get('updates_only'):
+                    check_updates(P, job['hists'])
+                    continue
                 check_problem(P, job)
                 if form == 'mass' and not job.get('digest_only'):
                     check_functional(P)
